@@ -20,7 +20,9 @@ _THEOREM_NAMES = ["C02_trav_iff_reachable", "C02_exact", "C02_exact_reachable", 
                   "C02_refs_are_the_rows", "C02_closed_iff_rows", "C02_rows_defined", "C02_schema_closed",
                   "C02_save_within", "C02_model_schemas_closed", "C02_save_refs_declared", "C02_exact_objects",
                   "C02_tag_contents_nodup", "C02_opSave_rows_defined", "C02_opSave_exact_objects",
-                  "C02_opSave_tag_contents_nodup"]
+                  "C02_opSave_tag_contents_nodup",
+                  # follow-up (wave 5): an object referenced from several places
+                  "C02_defined_exactly_once", "C02_opSave_defined_exactly_once"]
 THEOREMS = [_T + n for n in _THEOREM_NAMES]
 LEVEL_TEXT = ("Lean theorems over the AOEF model (shared with C01): the document `save c` writes is closed under "
               "reference, its identifiers are unique per list, a sequence's parent precedes it, tag ids are dense and "
@@ -34,7 +36,12 @@ LEVEL_TEXT = ("Lean theorems over the AOEF model (shared with C01): the document
               "The executable statement of the property (Lean `closed` / `unique` / `parentFirst`, `defs = reachKeys`, "
               "tag contents once) is evaluated on the documents the real code writes — pool-generated graphs, trees "
               "in which every reference is the only path to its target, exhaustive present/absent child lists, parent "
-              "chains of depth 0..5 with shared parents in both conversion orders, identifiers shared across kinds, "
+              "chains of depth 0..5 with shared parents in both conversion orders, one object referenced from several "
+              "places at every level (a clip annotation / clip prediction / match shared by several clip evaluations, "
+              "an annotation / prediction shared by several clip annotations / predictions, a sound event / sequence "
+              "under annotations, predictions, sequences and as a parent, several users / tags / notes / recordings / "
+              "clips / sound events / sequences of a tree made one object, in every collection type that can hold "
+              "them; theorem C02_defined_exactly_once), identifiers shared across kinds, "
               "collections that are instances of user-defined subclasses or come from model_validate / model_copy / "
               "tuples, histories of saves in one process to one file path (other types over the same Python objects, "
               "re-identified objects, an object modified in place, a poisoned return value and an `exclude` call in "
@@ -130,7 +137,11 @@ def _save(inp, session=None):
     of the earlier save is still there)."""
     import os
     from soundevent import io
-    b = session["builder"] if (session is not None and inp.get("share")) else aoef.Builder()
+    if session is not None and inp.get("share"):
+        b = session["builder"]
+    else:
+        # `leaves: shared`: one Python Tag per content and one Note per uuid as well (see c02gen.SharingBuilder)
+        b = c02gen.SharingBuilder() if inp.get("leaves") == "shared" else aoef.Builder()
     if inp.get("mutate") and session is not None:
         # an object that was saved before is modified in place (list append / attribute assignment) and saved again
         c02gen.apply_mutation(b, inp["mutate"])
@@ -222,6 +233,14 @@ def _judge(ctx, rec, rep, loaded):
         out["problems"] = list(rep["problems"])
         out["defs"] = {k: sorted(set(v)) for k, v in rep["defs"].items()}
         out["dup"] = {k: len(v) - len(set(v)) for k, v in rep["defs"].items() if len(v) != len(set(v))}
+        # the model's `unique` said "duplicate identifiers in <list>": name them (read off the raw identifiers)
+        for i, p in enumerate(out["problems"]):
+            if p.startswith("duplicate identifiers in "):
+                ids = rep["ids"].get(p[len("duplicate identifiers in "):], [])
+                twice = sorted({x for x in ids if ids.count(x) > 1}, key=str)
+                if twice:
+                    out["problems"][i] = (f"{p}: {twice[0]} is defined {ids.count(twice[0])} times (every object is "
+                                          "defined exactly once, however many places refer to it)")
         try:
             tids = sorted(int(i) for i in rep["ids"].get("tags", []))
             ctx.tally("documents with tags", int(bool(tids)))
@@ -797,6 +816,12 @@ def _gen_cases(ctx, rng, n_per_type, size=1.0):
         for _ in range(n_per_type):
             base = rng.choice(["/data/audio", "/", None])
             cj = aoefgen.gen_collection(rng, ty, rich=rng.random() < 0.2, base=base, size=size)
+            if ty == "evaluation" and rng.random() < 0.5:
+                # two or three clip evaluations that share a ClipAnnotation / ClipPrediction object (the pool
+                # generator makes a fresh pair for every clip evaluation)
+                for _ in range(rng.randint(1, 2)):
+                    cj = c02gen.share_in_evaluation(rng, cj) or cj
+                ctx.tally("evaluation: clip evaluations sharing annotations / predictions")
             how = rng.choice(c02gen.HOWS) if rng.random() < 0.5 else "plain"
             cases.append({"collection": cj, "audio_dir": base if (base and rng.random() < 0.5) else None, "how": how,
                           "dir_as": rng.choice(["str", "path"])})
@@ -813,8 +838,17 @@ def _directed(ctx, rng):
     ctx.tally("present/absent child lists (exhaustive)", len(pres))
     seqs = _wf_filter(ctx, c02gen.sequence_cases(rng))
     ctx.tally("parent chains (depth 0..5, shared parents, both orders)", len(seqs))
+    made = c02gen.sharing_cases(rng)
+    shr = _wf_filter(ctx, made)
+    ctx.tally("one object referenced from several places (every level, every collection type)", len(shr))
+    if len(shr) < len(made):
+        ctx.note(f"sharing cases outside the coherence hypothesis (not run): {len(made) - len(shr)}")
+    for c in shr:
+        ctx.tally("shared:" + c["shared"])
+    # as built (one Python object per shared object, tags and notes included) and through another construction path
+    shr = shr + [dict(c, how=rng.choice(c02gen.HOWS[1:])) for c in shr[::2]]
     other = [dict(c, how=rng.choice(c02gen.HOWS)) for c in pres + seqs]
-    return tree + other + [c02gen.large_case(rng)]
+    return tree + shr + other + [c02gen.large_case(rng)]
 
 
 def _enough(ctx):
@@ -909,6 +943,12 @@ def _correspondence(ctx):
                                      "sequences, tags}, recording {owners, tags, notes}, sound event / sequence annotation "
                                      "{notes, tags, created_by}: every present/absent combination, every child fresh, in "
                                      "every collection type that holds the object")
+    ctx.exhaustive["sharing sites"] = ("clip annotation / clip prediction / both / both and the matches shared by 2-3 clip "
+                                       "evaluations; sound event / sequence annotation (prediction) shared by 2-3 clip "
+                                       "annotations (predictions) on one clip and on several; a sound event / a sequence under "
+                                       "annotations, predictions, sequences, as a parent; 2 and 3 users / tags / notes / "
+                                       "recordings / clips / sound events / sequences of a tree made one object — in every "
+                                       "collection type that can hold the object")
     ctx.exhaustive["parent chains"] = "depth 0..5 x ancestors with/without sound events x annotation/prediction; two children of one parent and parent/child in both conversion orders"
     rows = [k for k in ctx.tallies if k.startswith("only-path:")]
     ctx.note(f"reference rows that were the only path to an identifier in some tree-shaped document: {len(rows)}")
